@@ -174,6 +174,12 @@ def spec_check(case, impl):
     for a, b in edges:
         refs.setdefault(b, []).append(a)
     perms = [[([] if pm == "-" else [int(x) for x in pm.split(".")]) for pm in g.split("/")] for g in f[4].split(";")]
+    # every group and every permutation the case asks for has a result
+    if len(groups) != len(perms):
+        return "crash: %d groups of permutations asked for, %d in the output" % (len(perms), len(groups))
+    for gi, g in enumerate(groups):
+        if len(g) != len(perms[gi]):
+            return "crash: group %d has %d permutations, the output %d" % (gi, len(perms[gi]), len(g))
     for gi, g in enumerate(groups):
         if any(p is None for p in g):
             return "crash: unreadable group " + impl[:200]
